@@ -68,4 +68,12 @@ mk('m8',D,'''	d.addToSizeChange(name, nd.Cid())
 		d.totalLinks++
 	}''','''	d.addToSizeChange(name, nd.Cid())
 	d.totalLinks++''')
+# m9 = seeded C16-c: basic->HAMT installs the HAMT before the triggering add is applied (visible only when that add fails: dyn-fault stratum)
+mk('m9',D,'''	err = hamtDir.AddChild(ctx, name, nd)
+	if err != nil {
+		return err
+	}
+	d.Directory = hamtDir
+	return nil''','''	d.Directory = hamtDir
+	return hamtDir.AddChild(ctx, name, nd)''')
 print('written to', OUT)
